@@ -78,6 +78,14 @@ Theorem C15_forbidden_only_from_lookup : forall (w : world) prog m n tr,
 Proof. intros w prog m n tr H. exact (forbidden_only_from_lookup w prog (init w) m n tr H). Qed.
 Print Assumptions C15_forbidden_only_from_lookup.
 
+(* persistent ids (PERSID / BINPERSID) are not a second way to name a global: the only object they
+   can produce is NoneType, for the one id "<<NoneType>>"; every other id - whatever its text - is None *)
+Theorem C15_persistent_id_only_nonetype : forall pid : obj,
+  (persistent_load pid = ONoneType <-> pid = OStr NONE_TYPE_PID) /\
+  (persistent_load pid = ONoneType \/ persistent_load pid = ONone).
+Proof. exact persistent_load_only_nonetype. Qed.
+Print Assumptions C15_persistent_id_only_nonetype.
+
 (* conversely: every dump of a well-formed payload whose class objects are on
    the built-in allow-list loads in the default process - no ForbiddenModule,
    no other error - and yields the payload (corollary of C14_pickle_roundtrip) *)
